@@ -226,16 +226,29 @@ def build(spec: dict) -> Built:
         try:
             run_op(b, i, op, source)
             b.outcomes.append(('ok',))
+        except HarnessError:
+            raise
         except Exception as e:  # noqa
             b.outcomes.append(_exc(e))
     return b
+
+
+class HarnessError(Exception):
+    """A failure of the harness itself (e.g. a value spec that cannot be materialised): never a verdict."""
+
+
+def mat_checked(v, built):
+    try:
+        return mat(v, built)
+    except Exception as e:  # noqa
+        raise HarnessError(f'cannot materialise {str(v)[:120]}: {type(e).__name__}: {e}')
 
 
 def run_op(b: Built, i: int, op: dict, source: str = 'inline') -> None:
     kind = op['op']
     if kind in schema.TYPES:
         lf = b.lfs[op.get('lf', 0)]
-        kwargs = {k: mat(v, b) for k, v in op.get('attrs', {}).items()}
+        kwargs = {k: mat_checked(v, b) for k, v in op.get('attrs', {}).items()}
         if op.get('set_name') is not None:
             kwargs['set_name'] = op['set_name']
         if 'origin_reference' in op and op['origin_reference'] is not None:
@@ -252,8 +265,8 @@ def run_op(b: Built, i: int, op: dict, source: str = 'inline') -> None:
             if op.get('dataset_name') is not None:
                 kwargs['dataset_name'] = op['dataset_name']
             if op.get('cast_dtype') is not None:
-                kwargs['cast_dtype'] = mat(op['cast_dtype'], b)
-        name = mat(op['name'], b) if isinstance(op['name'], dict) else op['name']
+                kwargs['cast_dtype'] = mat_checked(op['cast_dtype'], b)
+        name = mat_checked(op['name'], b) if isinstance(op['name'], dict) else op['name']
         b.handles[i] = getattr(lf, schema.TYPES[kind]['add'])(name, **kwargs)
     elif kind == 'nf_data':
         lf = b.lfs[op.get('lf', 0)]
@@ -266,9 +279,9 @@ def run_op(b: Built, i: int, op: dict, source: str = 'inline') -> None:
     elif kind == 'assign':
         tgt = b.handles[op['target']]
         attr = getattr(tgt, schema.item_attr_name(op['target_op'], op['kw']))
-        setattr(attr, op.get('part', 'value'), mat(op['value'], b))
+        setattr(attr, op.get('part', 'value'), mat_checked(op['value'], b))
     elif kind == 'setattr':
-        setattr(b.handles[op['target']], op['field'], mat(op['value'], b))
+        setattr(b.handles[op['target']], op['field'], mat_checked(op['value'], b))
     else:
         raise ValueError(f'unknown op {kind}')
 
